@@ -79,6 +79,8 @@ def run(chk, ctx):
            T.sub(env['size'], L.payload_length(parts)) == 0,
            'frame type %s, channel %s, size = payload length' %
            (T.show(env['type']), T.show(env['channel'])), site=site_m)
+    okc, whyc = L.channel_acceptance(e['outs'])
+    chk.ob('C02.H', 'marshal channels', okc, whyc, site=site_m)
     # fixed part
     basic_id = st_it.class_attr(prog.cls('commands.Basic'), 'frame_id')
     ff_ = L.fixed_fields(parts, [2, 2, 8])
@@ -311,6 +313,8 @@ def run(chk, ctx):
         for cons, okk, why in tsres:
             chk.ob('C02.T', cons, okk, why,
                    site='pamqp/encode.py::timestamp')
+        for cons, okk, why in tsrules.timestamp_decode_rule(ctx):
+            chk.ob('C02.T', cons, okk, why, site='pamqp/decode.py::timestamp')
     chk.assume('header tables round-trip as decided by C03')
     chk.units['properties'] = len(slots)
 
